@@ -55,7 +55,7 @@ fn aead_grid(ctx: &Ctx) {
 }
 
 fn aead_tamper(ctx: &Ctx) {
-    let n = ctx.tier.pick(12, 120);
+    let n = ctx.tier.pick(12, 600);
     par_for(n, crate::util::ncpu(), |i| {
         let mut rng = Rng::fork(ctx.seed, &format!("C19-tamper-{}", i));
         let key = rng.arr32();
@@ -138,7 +138,7 @@ fn aead_tamper(ctx: &Ctx) {
 }
 
 fn x25519_block(ctx: &Ctx) {
-    let n = ctx.tier.pick(3000, 60_000);
+    let n = ctx.tier.pick(3000, 400_000);
     let shards = 64;
     par_for(shards, crate::util::ncpu(), |sidx| {
         let mut rng = Rng::fork(ctx.seed, &format!("C19-x-{}", sidx));
